@@ -2,15 +2,27 @@
 from . import clone_replay, core, judge
 from . import tlc as T
 
-CONFIGS = {"quick": [dict(name="clone-f4", MaxN=4, MaxLinks=2)], "thorough": [dict(name="clone-f5", MaxN=5, MaxLinks=2)]}
+def big(name, lo, hi, instances, per, maxdepth=90):
+    return dict(name=name, MaxN=3, MaxLinks=2, big=dict(BigMin=lo, BigMax=hi, Instances=instances, PerShape=per, MaxDepth=maxdepth))
+
+
+CONFIGS = {"quick": [dict(name="clone-f4", MaxN=4, MaxLinks=2), big("big-clone-60", 10, 60, 16, 6, 60), big("big-clone-280", 100, 280, 8, 4)],
+           "thorough": [dict(name="clone-f5", MaxN=5, MaxLinks=2), big("big-clone-80", 10, 80, 96, 8, 80), big("big-clone-300", 100, 300, 24, 6)]}
 
 
 def tlc_cfg(c):
+    if c.get("big"):
+        consts = {"Nil": 0, "NonNode": 77, "MaxStack": 12, "MaxN": c["MaxN"], "MaxLinks": c["MaxLinks"]}
+        consts.update(c["big"])
+        return T.cfg_text(consts, init="BigInit", next_="BigNext", view="View", action_constraints=("Emit",), deadlock=False)
     return T.cfg_text({"Nil": 0, "NonNode": 77, "MaxStack": 12, "MaxN": c["MaxN"], "MaxLinks": c["MaxLinks"]},
                       view="View", properties=("Thm_Clone",), action_constraints=("Emit",), deadlock=False)
 
 
 def run_model(c, coverage=False):
+    if c.get("big"):
+        return T.run_vectors("MC_CloneBig", tlc_cfg(c), c["name"], lambda st: st["distinct"] * c["big"]["PerShape"], workers=1,
+                             extra=("-seed", str(29 + core.seed())))
     return T.run_vectors("MC_Clone", tlc_cfg(c), c["name"], lambda st: st["generated"] - st["distinct"])
 
 
